@@ -76,8 +76,15 @@ impl FeatureConstraint for SkillsConstraint {
             (Some(_), None) | (None, None) => true,
             (None, Some(_)) => false,
             (Some(source_skills), Some(candidate_skills)) => {
+                // NOTE: any of source skills satisfies one of requirement of the merged job, so each has to be acceptable
+                // for the candidate too: in contrast to all/none of skill sets, here the source set has to be a subset
+                let check_one_of = match (source_skills.one_of.as_ref(), candidate_skills.one_of.as_ref()) {
+                    (Some(source_set), Some(candidate_set)) => source_set.is_subset(candidate_set),
+                    (source_set, candidate_set) => check_skill_sets(source_set, candidate_set),
+                };
+
                 check_skill_sets(source_skills.all_of.as_ref(), candidate_skills.all_of.as_ref())
-                    && check_skill_sets(source_skills.one_of.as_ref(), candidate_skills.one_of.as_ref())
+                    && check_one_of
                     && check_skill_sets(source_skills.none_of.as_ref(), candidate_skills.none_of.as_ref())
             }
         };
